@@ -98,6 +98,20 @@ def run_world(kind, invs_seed, quick, known_k8a, hist_steps=0):
                 # random history, is not known by construction; it only matters when the plan is empty
                 f['manifest_missing'] = wrote and not f.get('plan_nonempty')
             aterm, acodes = areas_term(db, w)
+            if wrote or refusal is not None:
+                # C08_yes_mode_independent observed on the binary (informational, never an alarm: C08 itself says nothing about
+                # human mode): the same invocation with --yes and WITHOUT --json writes in the same areas and succeeds / fails alike
+                h = R.run(inv, json_mode=False, yes=True)
+                dh = h['delta']
+                if dh and known_k8a and inv.cid not in ('fetch', 'update') and w.info.get('cache_missing'):
+                    dh = C.strip_cache_git(dh, w)
+                _, hcodes = areas_term(dh, w)
+                out['human_n'] = out.get('human_n', 0) + 1
+                if hcodes != acodes or (h['rc'] == 0) != (b['rc'] == 0):
+                    hc = dict(case); hc['stream'] = 'human'
+                    hc['human_yes'] = {'rc': h['rc'], 'areas': hcodes, 'changed_paths': h['paths'][:25], 'stderr_tail': h['err'][-300:]}
+                    hc['json_yes_areas'] = acodes
+                    out.setdefault('human_mismatch', []).append(hc)
             cid_obs = a['doc'].get('command_id') if isinstance(a['doc'], dict) else ''
             term = cq.cpair(cq.cstr(inv.cid), C.facts_term(f), cq.copt(refusal, cq.cstr), cq.cstr(cid_obs or ''),
                             cq.cbool(wrote), aterm)
@@ -337,6 +351,13 @@ def run(ctx):
         for s_ in r['samples']:
             ctx.sample(s_)
         ctx.log('world %s: %d invocations, %d rejected by clap, %d full resets' % (k, r['n'], r['usage'], r.get('resets', 0)))
+        ctx.count('human', key=(k, r.get('human_n', 0)), nontrivial=r.get('human_n', 0) > 0, tags=['world:' + k, 'human_yes_runs:%d' % r.get('human_n', 0)])
+        if r.get('human_mismatch'):
+            # not part of the property (C08 speaks about --json and MCP only): recorded, never an alarm
+            hm = r['human_mismatch']
+            ctx.notes.append('world %s: %d of %d `--yes` runs without --json differ from the --json --yes run in exit status class or areas written '
+                             '(outside C08; the human-mode half of C08_yes_mode_independent does not describe the binary there), first: %r'
+                             % (k, len(hm), r.get('human_n', 0), hm[0].get('invocation')))
     # exactness on the binary: the commands observed refusing are exactly the advertised mutating set
     complete = exercised >= {i for i in cat.leaf_ids() if cat.supports_json(i)}
     missing = [m for m in cat.mutating if m not in refused]
